@@ -873,7 +873,7 @@ example :
     (evalR env e m MFlags.empty [.status 0]).2 = [.command [[116]]] ∧
     (evalR env e m MFlags.empty [.status 0]).1.1 = .match ∧
     ((Proofs.Own.runO (fun _ _ => .ok 0) (evalP env e m MFlags.empty) 0).2.1.map (·.1)) =
-      [.openPath (ofString "/dev/null"), .fork, .waitpid, .close 0] := by
+      [.openPath (ofString "/dev/null"), .fork [[116]] 0, .waitpid, .close 0] := by
   simp only [evalP, evalR, evalTop, evalT, eval]
   decide +kernel
 
@@ -928,7 +928,7 @@ theorem C03_no_match_no_effect (env : PEnv) (orc : EvalOracles) (expr : Expr) (m
       (ev.1 = .match ∧ (matchesInterpolate (Proofs.msgEnv env orc p) ev.2.ml
           (partMsg (parseMessage content) ((getAttachments (parseMessage content)).getD []))).isNone = true)) :
     (∀ x ∈ (runOracle orcl (processMessage env orc expr md name st) 0 []).2,
-      Proofs.ParseEvalCall d expr x.1 ∧ x.1.mutating = false ∧ (x.1 = .fork → Proofs.hasCommand expr = true)) ∧
+      Proofs.ParseEvalCall d expr x.1 ∧ x.1.mutating = false ∧ (x.1.isFork = true → Proofs.hasCommand expr = true)) ∧
     (∃ E L, (runOracle orcl (processMessage env orc expr md name st) 0 []).2 =
         (runOracle orcl (messageParseP d md.path name content) 0 []).2 ++ E ++ L ∧
         (∀ x ∈ E, Proofs.EvalCallOf expr x.1) ∧ ∀ x ∈ L, ∃ fd, x.1 = .close fd) ∧
@@ -936,7 +936,7 @@ theorem C03_no_match_no_effect (env : PEnv) (orc : EvalOracles) (expr : Expr) (m
       (if (runOracle orcl (messageParseP d md.path name content) 0 []).1.isNone || ev.1 != .nomatch
         then { st with error := true } else st, md) := by
   obtain ⟨h1, h2, h3⟩ := Proofs.processMessage_noMatch_run env orc expr md name st d content p n mf hd hf hp hn hmf orcl ev hev hno
-  exact ⟨fun x hx => ⟨(h1 x hx).1, (h1 x hx).2, fun hfk => by have := (h1 x hx).1; rw [hfk] at this; exact this.fork⟩, h2, h3⟩
+  exact ⟨fun x hx => ⟨(h1 x hx).1, (h1 x hx).2, fun hfk => (h1 x hx).1.fork' hfk⟩, h2, h3⟩
 
 /-- ... and for a rule tree without `command`, `isdirectory` and file-time `date` conditions (`Proofs.asksFree`) this is
 the statement in terms of the pure evaluator, with the parse calls only and no `fork`. -/
@@ -955,7 +955,7 @@ theorem C03_no_match_no_effect_pure (env : PEnv) (orc : EvalOracles) (expr : Exp
     (orcl : Nat → Call → Res) :
     (∀ x ∈ (runOracle orcl (processMessage env orc expr md name st) 0 []).2,
       ((∃ nm, x.1 = .openRd d nm) ∨ (∃ fd, x.1 = .read fd) ∨ ∃ fd, x.1 = .close fd) ∧
-        x.1.mutating = false ∧ x.1 ≠ .fork) ∧
+        x.1.mutating = false ∧ x.1.isFork = false) ∧
     (∃ L, (runOracle orcl (processMessage env orc expr md name st) 0 []).2 =
         (runOracle orcl (messageParseP d md.path name content) 0 []).2 ++ L ∧ ∀ x ∈ L, ∃ fd, x.1 = .close fd) ∧
     (runOracle orcl (processMessage env orc expr md name st) 0 []).1 =
